@@ -13,7 +13,7 @@ use txtpp::verif::{Directive, DirectiveType};
 pub struct C15;
 
 pub const TOKENS: &[&str] = &[
-    " ", "\t", "-", "//", "TXTPP#", "TXTPP", "#", "include", "after", "run", "temp", "tag", "write", "runx", "x", "é",
+    " ", "\t", "-", "//", "TXTPP#", "TXTPP", "#", "include", "after", "run", "temp", "tag", "write", "runx", "x", "é", "\u{3000}",
 ];
 
 #[derive(Debug, Clone, Serialize, Deserialize)]
@@ -212,7 +212,7 @@ fn nth_line(mut i: u64, max_tokens: usize) -> String {
 
 pub fn directive_lines() -> Vec<String> {
     let mut v = vec![];
-    for indent in ["", " ", "\t", "  "] {
+    for indent in ["", " ", "\t", "  ", "\u{3000}"] {
         for prefix in ["", "-", "//", "// ", "# ", "é", "- -"] {
             for name in ["", "include", "after", "run", "temp", "tag", "write"] {
                 for arg in ["", " a", " a  "] {
@@ -298,7 +298,7 @@ impl Prop for C15 {
         PropMeta {
             id: "C15",
             level: "exploration",
-            rule: "bounded-exhaustive: every line of <=4 (quick) / <=5 (thorough) tokens over {space, tab, '-', '//', 'TXTPP#', 'TXTPP', '#', include, after, run, temp, tag, write, runx, x, é} is classified by txtpp's detect_from and by the reference grammar transcribed from the property statement (directive or not; indent, prefix, kind, trimmed first argument); every (directive line from 4 indents x 7 prefixes x 7 names x 3 argument forms) x (candidate continuation line of <=3 / <=4 tokens) is pushed through add_line and compared (continues or ends; right-trimmed argument). Plus proptest-generated longer lines and pairs whose continuation is built from the directive's own indent and prefix. Pairs where byte- and character-length readings of 'as many spaces as the prefix is long' differ are excluded and counted. Non-trivial = line contains TXTPP#, or pair whose directive may span lines; enumerated cases are distinct by construction.",
+            rule: "bounded-exhaustive: every line of <=4 (quick) / <=5 (thorough) tokens over {space, tab, '-', '//', 'TXTPP#', 'TXTPP', '#', include, after, run, temp, tag, write, runx, x, é, U+3000 (whitespace that is not ASCII)} is classified by txtpp's detect_from and by the reference grammar transcribed from the property statement (directive or not; indent, prefix, kind, trimmed first argument); every (directive line from 5 indents (one of them U+3000) x 7 prefixes x 7 names x 3 argument forms) x (candidate continuation line of <=3 / <=4 tokens) is pushed through add_line and compared (continues or ends; right-trimmed argument). Plus proptest-generated longer lines and pairs whose continuation is built from the directive's own indent and prefix. Pairs where byte- and character-length readings of 'as many spaces as the prefix is long' differ are excluded and counted. Non-trivial = line contains TXTPP#, or pair whose directive may span lines; enumerated cases are distinct by construction.",
             assumptions: vec!["Directive/DirectiveType are reached through the add-only `verif` re-export; the reference grammar is harness/src/model/grammar.rs"],
             hang_is_violation: false,
             needs_cli: false,
@@ -449,7 +449,7 @@ impl Prop for C15 {
             for _ in 0..n {
                 let l = match c.weighted(&[4, 4, 3]) {
                     0 => {
-                        let ind = *c.pick(&["", " ", "\t", "  "]);
+                        let ind = *c.pick(&["", " ", "\t", "  ", "\u{3000}"]);
                         let pre = *c.pick(&["", "-", "//", "// ", "# "]);
                         let k = *c.pick(&kinds);
                         let arg = *c.pick(&["", " a", " a  ", " T", " b.txt"]);
